@@ -109,7 +109,7 @@ def describe(rep):
         '(b), (d) the rejection clauses and the frozen/read-only attribute clauses are a finite table of single-fault perturbations of a valid '
         'description; they are executed concretely as side conditions -- no solver decides them. List-valued transfer entries (space_transfer_class, space_transfer_params, base_transfer_params) are read as: entry l belongs to level l, and the transfer attaching level l to the finer level l-1 is built from the l-th entries (recording transfer classes; ENUMERATED shapes, 2..4 levels).'
     )
-    rep.rule = 'case = CrossHair condition / path of the controller constructor (an ordering of the symbolic control orders) / one single-fault perturbation; frozen objects: step / level / controller / sweeper status and parameter objects and the status containers of convergence controllers'
+    rep.rule = 'case = CrossHair condition / path of the controller constructor AND of a short real run with logging controllers (an ordering of the symbolic control orders; every round of every callback kind is proved ascending) / one single-fault perturbation; frozen objects: step / level / controller / sweeper status and parameter objects and the status containers of convergence controllers'
     rep.assume('dictionary keys of the description are fixed strings (CrossHair times out on symbolic str keys)', 'attribute names in (b) are a fixed list')
     rep.out_of_scope('the full grammar of valid descriptions (problem / sweeper specific parameters)')
 
